@@ -167,6 +167,12 @@ class Findings:
         p = os.path.join(VERIF, "known_findings.json")
         self.data = json.load(open(p)) if os.path.exists(p) else {"findings": [], "fixed": []}
 
+    def match_exact(self, prop, line):
+        for f in self.data["findings"]:
+            if f["property"] == prop and line in (f.get("exact_ops") or []):
+                return f
+        return None
+
     def match(self, prop, op, cls):
         for f in self.data["findings"]:
             if f["property"] == prop and f["class"] == cls and (not f.get("ops") or op in f["ops"]):
@@ -255,6 +261,12 @@ def compare(res, findings, lines, impl, model, search=None):
                               {"ops": [ln], "impl": [a], "model": [b]})
                 continue
             if ia == "FAIL" and mb == "ok":
+                f = findings.match_exact(res.prop, ln)
+                if f:
+                    c, _ = res.known.get(f["id"], (0, f["what"]))
+                    res.known[f["id"]] = (c + 1, f["what"])
+                    stats["oracle_fail_known"] += 1
+                    continue
                 res.violation("property oracle fails on the implementation where the proved model satisfies it: "
                               "%s -> impl %r" % (ln, a), {"ops": [ln], "impl": [a], "model": [b]})
                 continue
